@@ -68,3 +68,181 @@ def double_writes(writes, limit):
             out.append((s, min(e, cur_end, limit)))
         cur_end = max(cur_end, e)
     return out
+
+
+# ---------------------------------------------------------------------------------------------------------------------
+# virtual devices for multi-gigabyte files (DESIGN.md 3.5)
+
+PAGE = 65536
+_FILL = bytes((i * 37 + 11) % 251 for i in range(PAGE - 16))
+
+
+def pattern_page(src_id, index):
+    """One 64 KiB page of source src_id: 16-byte header (magic, source id, page index) + fixed filler."""
+    return b'PGv1' + src_id.to_bytes(4, 'big') + index.to_bytes(8, 'big') + _FILL
+
+
+def pattern_bytes(src_id, offset, length, total):
+    """Bytes [offset, offset+length) of the virtual source of `total` bytes."""
+    length = max(0, min(length, total - offset))
+    out = []
+    pos = offset
+    end = offset + length
+    while pos < end:
+        idx, within = divmod(pos, PAGE)
+        n = min(PAGE - within, end - pos)
+        pg = pattern_page(src_id, idx)
+        out.append(pg if (within == 0 and n == PAGE) else pg[within:within + n])
+        pos += n
+    return b''.join(out)
+
+
+class PatternSource(io.RawIOBase):
+    """Read-only file object of `total` bytes whose content is a function of the offset (costs no memory)."""
+
+    def __init__(self, src_id, total):
+        io.RawIOBase.__init__(self)
+        self.src_id, self.total, self.pos = src_id, total, 0
+        self.mode = 'rb'
+
+    def readable(self):
+        return True
+
+    def seekable(self):
+        return True
+
+    def seek(self, off, whence=0):
+        if whence == 0:
+            self.pos = off
+        elif whence == 1:
+            self.pos += off
+        else:
+            self.pos = self.total + off
+        return self.pos
+
+    def tell(self):
+        return self.pos
+
+    def read(self, n=-1):
+        if n is None or n < 0:
+            n = self.total - self.pos
+        b = pattern_bytes(self.src_id, self.pos, n, self.total)
+        self.pos += len(b)
+        return b
+
+
+class SparseSink(io.RawIOBase):
+    """
+    Output object for huge images: writes that are whole pattern pages are recorded as runs
+    (dest offset, length, source id, source offset) instead of being stored; everything else is stored.
+    Readable, so that the image can be reopened by pycdlib and by the decoders (through VirtualBytes).
+    """
+
+    def __init__(self):
+        io.RawIOBase.__init__(self)
+        self.pos = 0
+        self.size = 0
+        self.chunks = {}      # dest offset -> bytes   (non-pattern data, non-overlapping after normalisation)
+        self.runs = []        # (dest, length, src_id, src_off)
+        self.mode = 'rb+'
+        self.writes = []
+
+    def readable(self):
+        return True
+
+    def writable(self):
+        return True
+
+    def seekable(self):
+        return True
+
+    def seek(self, off, whence=0):
+        if whence == 0:
+            self.pos = off
+        elif whence == 1:
+            self.pos += off
+        else:
+            self.pos = self.size + off
+        return self.pos
+
+    def tell(self):
+        return self.pos
+
+    def write(self, b):
+        b = bytes(b)
+        n = len(b)
+        self.writes.append((self.pos, n))
+        off = 0
+        # pattern pages are recognised wherever a chunk starts with a page header and is followed by whole pages
+        while off < n:
+            if n - off >= PAGE and b[off:off + 4] == b'PGv1':
+                src = int.from_bytes(b[off + 4:off + 8], 'big')
+                idx = int.from_bytes(b[off + 8:off + 16], 'big')
+                k = 0
+                while n - off - k * PAGE >= PAGE and b[off + k * PAGE:off + k * PAGE + 16] == b'PGv1' + src.to_bytes(4, 'big') + (idx + k).to_bytes(8, 'big') \
+                        and b[off + k * PAGE + 16:off + k * PAGE + 48] == _FILL[:32]:
+                    k += 1
+                if k:
+                    dest = self.pos + off
+                    if self.runs and self.runs[-1][2] == src and self.runs[-1][0] + self.runs[-1][1] == dest \
+                            and self.runs[-1][3] + self.runs[-1][1] == idx * PAGE:
+                        last = self.runs[-1]
+                        self.runs[-1] = (last[0], last[1] + k * PAGE, src, last[3])
+                    else:
+                        self.runs.append((dest, k * PAGE, src, idx * PAGE))
+                    off += k * PAGE
+                    continue
+            # plain data up to the next possible page header
+            nxt = b.find(b'PGv1', off + 1)
+            if nxt < 0 or n - nxt < PAGE:
+                nxt = n
+            self.chunks[self.pos + off] = b[off:nxt]
+            off = nxt
+        self.pos += n
+        self.size = max(self.size, self.pos)
+        return n
+
+    def _read_at(self, start, n):
+        end = min(start + n, self.size)
+        if end <= start:
+            return b''
+        buf = bytearray(end - start)
+        for dest, ln, src, soff in self.runs:
+            a, e = max(dest, start), min(dest + ln, end)
+            if a < e:
+                buf[a - start:e - start] = pattern_bytes(src, soff + (a - dest), e - a, 1 << 62)
+        for dest, data in self.chunks.items():
+            a, e = max(dest, start), min(dest + len(data), end)
+            if a < e:
+                buf[a - start:e - start] = data[a - dest:e - dest]
+        return bytes(buf)
+
+    def read(self, n=-1):
+        if n is None or n < 0:
+            n = self.size - self.pos
+        b = self._read_at(self.pos, n)
+        self.pos += len(b)
+        return b
+
+    def normalise(self):
+        """Sort runs; later writes win (pycdlib only overwrites small metadata ranges)."""
+        self.runs.sort()
+
+
+class VirtualBytes(object):
+    """bytes-like view (len, int index, slice) of a SparseSink for the decoders."""
+
+    def __init__(self, sink):
+        self.sink = sink
+
+    def __len__(self):
+        return self.sink.size
+
+    def __getitem__(self, k):
+        if isinstance(k, slice):
+            start, stop, step = k.indices(self.sink.size)
+            assert step == 1
+            return self.sink._read_at(start, stop - start)
+        if k < 0:
+            k += self.sink.size
+        return self.sink._read_at(k, 1)[0]
